@@ -17,6 +17,12 @@ def onceShape : List String :=
 def onceSkeleton : String :=
   "(block (if (:= (v5 v6) ((call (. v0 get) v3))) v6 (block (return v5 nil)) _) (call (. (. v0 m) Lock)) (defer (call (. (. v0 m) Unlock))) (if (:= (v5 v6) ((index (. v0 entries) v3))) v6 (block (return v5 nil)) _) (:= (v5 v7) ((call (. starlark Call) v1 v4 nil nil))) (if _ (!= v7 nil) (block (return nil v7)) _) (= ((index (. v0 entries) v3)) (v5)) (return v5 nil))"
 
+def freezeBody : String :=
+  "(block)"
+
+def cacheFields : List String :=
+  ["m", "entries", "onceM"]
+
 def mutexType : String :=
   "sync.RWMutex"
 
